@@ -308,3 +308,96 @@ func genLex(s spec) genOut {
 	ch := lexChars[s.B%len(lexChars)]
 	return genOut{Src: c.Pre + ch.Text + c.Post, Class: fmt.Sprintf("lex:%s#%d:%s", c.Group, s.A%len(lexContexts), ch.Name)}
 }
+
+// ---------------------------------------------------------------------------------------
+// Family "clauses": statement headers with every combination of present, absent and unusual clauses
+// (three-clause, condition and range loops with 0..3 semicolons; switch subjects; parameter lists). Every
+// body leaves its loop, so an accepted form terminates.
+
+type clauseSrc struct {
+	Src   string
+	Class string
+}
+
+var clauseSources = func() []clauseSrc {
+	var out []clauseSrc
+	const prelude = "n := 0; i := 0; j := 0; f := func() { return 1 }; x := [1, 2]\n"
+	name := func(s string) string {
+		if s == "" {
+			return "none"
+		}
+		return s
+	}
+	inits := []string{"", "i := 0", "i = 0", "i", "var k = 0", "i, j := 0, 1", "f()", "i++", "const c = 1", "func g() { }"}
+	conds := []string{"", "i < 3", "true", "i", "k := 1", "f() == 1", "nil"}
+	posts := []string{"", "i++", "i += 1", "i = i + 1", "f()", "i", "k := 2", "i, j = j, i", "i--", "break"}
+	seps := []string{";", "; ;", " "}
+	bodies := []string{"{ break }", "{ n++; if n > 3 { break }; continue }"}
+	for _, in := range inits {
+		for s1, sep1 := range seps {
+			for _, c := range conds {
+				for s2, sep2 := range seps {
+					for _, p := range posts {
+						for b, body := range bodies {
+							out = append(out, clauseSrc{
+								Src:   prelude + "for " + in + sep1 + " " + c + sep2 + " " + p + " " + body + "\n[n, i, j]",
+								Class: fmt.Sprintf("clauses:for3:init=%s:sep%d:cond=%s:sep%d:post=%s:body%d", name(in), s1, name(c), s2, name(p), b),
+							})
+						}
+					}
+				}
+			}
+		}
+	}
+	vars := []string{"", "i :=", "i, v :=", "i, v, w :=", "_, v :=", "i =", "i, v =", "var i =", "i, i :=", "x, x :="}
+	iters := []string{"x", "[1, 2]", "3", `"ab"`, "{}", `{"a": 1}`, "nil", "f", "f()", "", "range x", "x, x", "-2", "1.5"}
+	for _, v := range vars {
+		for _, it := range iters {
+			for b, body := range bodies {
+				out = append(out, clauseSrc{
+					Src:   prelude + "for " + v + " range " + it + " " + body + "\n[n, i, j]",
+					Class: fmt.Sprintf("clauses:range:vars=%s:iter=%s:body%d", name(v), name(it), b),
+				})
+				out = append(out, clauseSrc{
+					Src:   prelude + "for " + strings.TrimSuffix(strings.TrimSuffix(v, ":="), "=") + " in " + it + " " + body + "\n[n, i, j]",
+					Class: fmt.Sprintf("clauses:in:vars=%s:iter=%s:body%d", name(v), name(it), b),
+				})
+			}
+		}
+	}
+	subjects := []string{"", "i", "i;", "i; j", "k := 1", "k := 1; k", "f()", "nil", "x", "true"}
+	cases := []string{"", "case 0:", "case 0: 1", "default:", "default: 2", "case 0: 1\ndefault: 2", "default: 2\ncase 0: 1", "default:\ndefault:", "case:", "case 0, 1, : 1", "case 0: break", "case i: continue"}
+	for _, s := range subjects {
+		for _, c := range cases {
+			out = append(out, clauseSrc{
+				Src:   prelude + "r := switch " + s + " {\n" + c + "\n}\n[r, n]",
+				Class: fmt.Sprintf("clauses:switch:subject=%s:cases=%s", name(s), name(strings.ReplaceAll(c, "\n", "|"))),
+			})
+			out = append(out, clauseSrc{
+				Src:   prelude + "for n < 2 { n++; switch " + s + " {\n" + c + "\n} }\nn",
+				Class: fmt.Sprintf("clauses:switch-in-loop:subject=%s:cases=%s", name(s), name(strings.ReplaceAll(c, "\n", "|"))),
+			})
+		}
+	}
+	params := []string{"", "a", "a,", "a, b", "a=1", "a=1, b", "a, b=2", "a=1, b=2,", "a, a", "a=", "=1", "a b", "a, ...b", "a=nil", "a=[1]", "a=f()", "a=-1", `a="s"`, "a=1.5", "a=true", "a=x", "a=a"}
+	args := []string{"", "1", "1, 2", "1,", ",", "1, 2, 3", "a=1"}
+	for _, p := range params {
+		for _, a := range args {
+			out = append(out, clauseSrc{
+				Src:   prelude + "func g(" + p + ") { return 7 }\ng(" + a + ")",
+				Class: fmt.Sprintf("clauses:func:params=%s:args=%s", name(p), name(a)),
+			})
+			out = append(out, clauseSrc{
+				Src:   prelude + "h := func(" + p + ") { return 7 }\ntry(func() { return h(" + a + ") }, 0)",
+				Class: fmt.Sprintf("clauses:funclit:params=%s:args=%s", name(p), name(a)),
+			})
+		}
+	}
+	return out
+}()
+
+// genClauses: A = index into clauseSources.
+func genClauses(s spec) genOut {
+	c := clauseSources[s.A%len(clauseSources)]
+	return genOut{Src: c.Src, Class: c.Class}
+}
